@@ -240,8 +240,17 @@ func checkSnapLL(c snapLLCase) ev.Outcome {
 		if !isUnitish(q) {
 			return ""
 		}
-		if site, _, _ := nearestGridSite(q, c.Exp, 1); angle(q, site) <= 1e-14 {
-			return "intlatlng-rounds-radians" // the result is an integer number of 10^-e RADIANS (int32 range)
+		// what "round radians*10^e into an int32, scale back, read as radians" gives
+		pw := math.Pow(10, float64(c.Exp))
+		ra := func(v float64) float64 {
+			if v < 0 {
+				return float64(int32(v - 0.5))
+			}
+			return float64(int32(v + 0.5))
+		}
+		wrong := fromLatLngRad(ra(latOf(p)*pw)*(1/pw), ra(lngOf(p)*pw)*(1/pw))
+		if angle(q, wrong) <= 1e-12 {
+			return "intlatlng-rounds-radians"
 		}
 		return ""
 	}
@@ -262,7 +271,8 @@ func checkSnapLL(c snapLLCase) ev.Outcome {
 		o.Finding = classify()
 		return o
 	}
-	if q2 := sn.SnapPoint(q); q2 != q {
+	// a site snaps to itself (not bit-for-bit: at a pole the longitude of the site is arbitrary)
+	if q2 := sn.SnapPoint(q); angle(q, q2) > absSlack {
 		o.Err = fmt.Sprintf("E%d: SnapPoint is not idempotent: %v -> %v -> %v", c.Exp, p, q, q2)
 		o.Finding = "intlatlng-snap-not-idempotent"
 		return o
